@@ -336,9 +336,8 @@ theorem leafSpec_extra (H : MkExtraOK) {E : Env} {ex : List String} (hE : E.extr
 
 /-! ### the constructor fact on plain values -/
 
-theorem mkSingle_extra_bare (v : String) (hv : PlainValue v) :
+theorem mkSingle_extra_bare (v : String) (hv : PlainTok v) (hst : ∀ c, v.toList.head? = some c → StartOk c) :
     mkSingle "extra" v false = .ok ⟨"extra", "==", v, false, .gen (.atom ⟨v, .eq, true⟩)⟩ := by
-  obtain ⟨hv, hst⟩ := hv
   have hvo := hv.valueOk
   cases hl : v.toList with
   | nil => exact absurd hl hv.1
@@ -368,7 +367,7 @@ theorem mkExtraOK_plain (a : Generic.Atom) (hv : PlainValue a.value) (hx : a.x =
   simp only at hx hv; subst hx
   cases op with
   | eq =>
-    have := mkSingle_extra_eq v hv.1 (fun h0 => (hv.2 '=' h0).2.2.2.2.2.2.2.2.2 rfl)
+    have := mkSingle_extra_eq v hv.1 hv.2
     simp only [mkSingleOfC, LeafC.toStr, GC.toStr, GS.toStr, Generic.Atom.toStr, bind, Except.bind]
     simp
     rw [this]; simp [sOfAtom, Generic.Op.str]
